@@ -323,7 +323,7 @@ class HistCase(Case):
                            "quote": [str(x) for x in s[3]], "changed_slots": len(s[4])} for s in h.steps]}
 
 
-MONITORS = {"C01", "C02", "C03", "C04", "C05", "C07", "C09", "C11", "C12", "C13", "C14", "C16", "C17", "C20"}
+MONITORS = {"C10", "C01", "C02", "C03", "C04", "C05", "C07", "C09", "C11", "C12", "C13", "C14", "C16", "C17", "C20"}
 
 
 def replay_hist(j):
@@ -861,6 +861,12 @@ def router_histories(rng, tier):
             elif rng.random() < 0.3:
                 m = rng.choice([0, 1, 2 ** 127])
             to = rng.choice([None, None, rng.choice(h.users()), u])
+            if ops and rng.random() < 0.35:
+                # a recipient who already holds more of the final asset than the sender, minimum just above the quote
+                tgt = ops[-1][1]
+                rich = max(h.users(), key=lambda x: h.abal(tgt, x))
+                if rich != u and quote is not None:
+                    to, m = rich, quote[0] + rng.choice([1, 1, 2, 0])
             if rng.random() < 0.15:                        # the router is not empty
                 d = rng.choice(assets)
                 h.do(("bank", USER0, ROUTER, [(d[1], 5)]) if d[0] == "n" else ("transfer", d[1], USER0, ROUTER, 5))
